@@ -78,6 +78,8 @@ def template_init(j=0):
         _state['calc_hook'] = False
     _state['templates'] = HW.load_templates()
     _state['ranges'] = HW.declared_ranges()
+    _state['provided_sensitive'] = HW.provided_sensitive()
+    HW.add_default_tweaks(_state['provided_sensitive'])
     _state['pkg_listing'] = None
 
 
